@@ -18,6 +18,8 @@ package cmap
 //@   ensures code2rune == nil && err == nil ==> g12wf(data)
 //@   ensures code2rune == nil && g12wf(data) ==> err == nil
 //@   ensures err == nil ==> is(sub, Format12) && forall i int :: 0 <= i && i < g12n(data) ==> forall c int :: g12start(data, i) <= c && c <= g12end(data, i) ==> has(sub.(Format12), c) && sub.(Format12)[c] == uint16(g12gid(data, i) + c - g12start(data, i))
+//@   any c0 int
+//@   ensures err == nil && has(sub.(Format12), c0) ==> exists kk int :: hint(kk, g12n(data) - 1) && 0 <= kk && kk < g12n(data) && g12start(data, kk) <= c0 && c0 <= g12end(data, kk)
 //@   modifies nothing
 //@   loop 0
 //@     invariant 0 <= i && i <= nSegments && nSegments == g12n(data) && len(data) == 16 + 12*nSegments && nSegments <= 1000000 && code2rune == nil
@@ -26,6 +28,7 @@ package cmap
 //@     invariant (i == 0 && size == 0) || (i > 0 && size <= prevEnd + 1)
 //@     invariant forall k int :: 0 <= k && k <= i ==> g12total(data, k) <= 65536
 //@     invariant forall k int :: 0 <= k && k < i ==> forall c int :: g12start(data, k) <= c && c <= g12end(data, k) ==> has(cmap, c) && cmap[c] == uint16(g12gid(data, k) + c - g12start(data, k))
+//@     invariant has(cmap, c0) ==> exists kk int :: hint(kk, i - 1) && hint(kk, i) && 0 <= kk && kk < i && g12start(data, kk) <= c0 && c0 <= g12end(data, kk)
 //@     decreases nSegments - i
 //@   loop 1
 //@     invariant 0 <= i && i < nSegments && nSegments == g12n(data) && len(data) == 16 + 12*nSegments && nSegments <= 1000000 && code2rune == nil
@@ -37,6 +40,7 @@ package cmap
 //@     invariant forall k int :: 0 <= k && k <= i + 1 ==> g12total(data, k) <= 65536
 //@     invariant forall k int :: 0 <= k && k < i ==> forall c int :: g12start(data, k) <= c && c <= g12end(data, k) ==> has(cmap, c) && cmap[c] == uint16(g12gid(data, k) + c - g12start(data, k))
 //@     invariant forall c2 int :: startCharCode <= c2 && c2 < c ==> has(cmap, c2) && cmap[c2] == uint16(startGlyphID + c2 - startCharCode)
+//@     invariant has(cmap, c0) ==> exists kk int :: hint(kk, i - 1) && hint(kk, i) && 0 <= kk && kk < i + 1 && g12start(data, kk) <= c0 && c0 <= g12end(data, kk) && (kk == i ==> c0 < c)
 //@     decreases endCharCode + 1 - c
 
 //@ func Decode(data []byte) (tab Table, err error)   props: C02 C09 C16 C01
@@ -109,6 +113,7 @@ package cmap
 //@   let code2rune0 = old(code2rune == nil)
 //@   ensures err == nil ==> sub != nil && is(sub, Format4)
 //@   ensures err == nil && (code2rune0 && 0 <= k0 && k0 < f4n(in) && f4start(in, k0) <= c0 && c0 <= f4end(in, k0) && f4valid(in, k0) && f4glyph(in, k0, c0) != 0) ==> has(sub.(Format4), c0) && sub.(Format4)[c0] == f4glyph(in, k0, c0)
+//@   ensures err == nil && code2rune0 && has(sub.(Format4), c0) ==> exists kk int :: hint(kk, f4n(in) - 1) && 0 <= kk && kk < f4n(in) && f4start(in, kk) <= c0 && c0 <= f4end(in, kk) && sub.(Format4)[c0] == f4glyph(in, kk, c0) && f4glyph(in, kk, c0) != 0
 //@   modifies nothing
 //@   loop 0
 //@     invariant 14 <= i && i <= len(in) && i%2 == 0 && len(in)%2 == 0 && len(words) == (i - 14)/2 && cap(words) >= (len(in) - 14)/2 && fresh(words) && segCount*2 == segCountX2 && 4*segCountX2 + 16 <= len(in) && 0 <= segCount && code2rune != nil && segCount == f4n(in) && (code2rune0 ==> code2rune == unicode)
@@ -121,11 +126,13 @@ package cmap
 //@     invariant 0 <= k && k <= segCount && SL && WD && prevEnd <= 65536
 //@     invariant DONE
 //@     invariant 0 <= k0 && k0 < k ==> f4end(in, k0) + 1 <= prevEnd
+//@     invariant code2rune0 && has(cmap, c0) ==> exists kk int :: hint(kk, k - 1) && hint(kk, k) && 0 <= kk && kk < k && f4start(in, kk) <= c0 && c0 <= f4end(in, kk) && cmap[c0] == f4glyph(in, kk, c0) && f4glyph(in, kk, c0) != 0
 //@     decreases segCount - k
 //@   loop 2
 //@     invariant start <= idx && idx <= end && end <= 65536 && 0 <= k && k < segCount && SL && WD && prevEnd <= 65536 && start == f4start(in, k) && end == f4end(in, k) + 1 && delta == f4delta(in, k) && f4iro(in, k) == 0
 //@     invariant DONE
 //@     invariant 0 <= k0 && k0 < k ==> f4end(in, k0) < start
+//@     invariant code2rune0 && has(cmap, c0) ==> exists kk int :: hint(kk, k - 1) && hint(kk, k) && 0 <= kk && kk < k + 1 && f4start(in, kk) <= c0 && c0 <= f4end(in, kk) && cmap[c0] == f4glyph(in, kk, c0) && f4glyph(in, kk, c0) != 0 && (kk == k ==> c0 < idx)
 //@     invariant k == k0 && (code2rune0 && 0 <= k0 && k0 < f4n(in) && f4start(in, k0) <= c0 && c0 <= f4end(in, k0) && f4valid(in, k0) && f4glyph(in, k0, c0) != 0) && c0 < idx ==> has(cmap, c0) && cmap[c0] == f4glyph(in, k0, c0)
 //@     decreases end - idx
 //@   loop 3
@@ -133,6 +140,7 @@ package cmap
 //@     invariant 0 <= d && d + (end - start) <= len(glyphIDArray)
 //@     invariant DONE
 //@     invariant 0 <= k0 && k0 < k ==> f4end(in, k0) < start
+//@     invariant code2rune0 && has(cmap, c0) ==> exists kk int :: hint(kk, k - 1) && hint(kk, k) && 0 <= kk && kk < k + 1 && f4start(in, kk) <= c0 && c0 <= f4end(in, kk) && cmap[c0] == f4glyph(in, kk, c0) && f4glyph(in, kk, c0) != 0 && (kk == k ==> c0 < idx)
 //@     invariant k == k0 && (code2rune0 && 0 <= k0 && k0 < f4n(in) && f4start(in, k0) <= c0 && c0 <= f4end(in, k0) && f4valid(in, k0) && f4glyph(in, k0, c0) != 0) && c0 < idx ==> has(cmap, c0) && cmap[c0] == f4glyph(in, k0, c0)
 //@     decreases end - idx
 
@@ -180,10 +188,13 @@ package cmap
 //@   let isUni = old(code2rune == nil); fc = be16(old(data), 6); cnt = be16(old(data), 8)
 //@   ensures err == nil ==> sub != nil && is(sub, Format4)
 //@   ensures err == nil && isUni && fc <= c0 && c0 < fc + cnt && be16(old(data), 10 + 2*(c0 - fc)) != 0 ==> has(sub.(Format4), c0) && sub.(Format4)[c0] == be16(old(data), 10 + 2*(c0 - fc))
+//@   ensures err == nil && isUni && has(sub.(Format4), c0) ==> fc <= c0 && c0 < fc + cnt && sub.(Format4)[c0] == be16(old(data), 10 + 2*(c0 - fc)) && sub.(Format4)[c0] != 0
 //@   modifies nothing
 //@   loop 0
 //@     invariant 0 <= i && i <= count && len(data) == 2*count && res != nil && fresh(res) && code2rune != nil && (isUni ==> code2rune == unicode) && firstCode == fc && count == cnt && ref(data) == ref(old(data)) && off(data) == off(old(data)) + 10
 //@     invariant isUni && fc <= c0 && c0 < fc + i && be16(old(data), 10 + 2*(c0 - fc)) != 0 ==> has(res, c0) && res[c0] == be16(old(data), 10 + 2*(c0 - fc))
+//@     invariant isUni && has(res, c0) ==> fc <= c0 && c0 < fc + i && res[c0] == be16(old(data), 10 + 2*(c0 - fc)) && res[c0] != 0
+//@     invariant fc + cnt <= 65536
 //@     decreases count - i
 
 // Format 0 (byte encoding table): glyph 0 for every code outside 0..255
